@@ -356,6 +356,9 @@ func runNetBoundariesOn(f lib.Flags, res *lib.Result, only *replay, dstNew bool)
 				switch {
 				case r.hung:
 					res.Violate(lib.Violation{Sig: "store-hangs:" + tc.Name, What: "offering the block does not return: " + rp.Detail, Replay: rp})
+				case r.panicked && strings.HasPrefix(tc.Name, "field:.Classes[]<Sierra>.Compiled") && malformedDeclaredCompiled(tc.Bundle):
+					rp.Note = trunc(r.stack, 1200)
+					res.Violate(lib.Violation{Sig: casmPanicSig, What: fmt.Sprintf("%s (%s, %s backend): %v", casmPanicWhat, rp.Detail, backend, r.err), Replay: rp})
 				case r.panicked:
 					res.Violate(lib.Violation{Sig: "store-panics:net:" + tc.Name, What: fmt.Sprintf("SanityCheckNewHeight/Store panics (%s, %s backend): %v", rp.Detail, backend, r.err), Replay: rp})
 				case r.err == nil && nc.expect == "reject":
